@@ -16,6 +16,7 @@ import (
 	"time"
 
 	"github.com/q191201771/lal/pkg/base"
+	"github.com/q191201771/lal/pkg/logic"
 
 	"lalverif/fw"
 	"lalverif/gen"
@@ -126,14 +127,22 @@ func c20Run(c *fw.Ctx, i int) {
 		}
 		return ref.StubBehaviour{}
 	})
-	if origin == nil || target == nil {
+	// a second push target that completes the publish handshake and then stops reading, socket open
+	// (a hung downstream server): lal's push session must give up at its write timeout - writes to a
+	// push target happen under the stream's lock
+	staller, _ := ref.NewRtmpStubRcvBuf(func(n int) ref.StubBehaviour {
+		return ref.StubBehaviour{StallAfterPublish: 120 * time.Second}
+	}, 8192)
+	if origin == nil || target == nil || staller == nil {
 		c.Inconclusive("stubs")
 		return
 	}
 	defer origin.Close()
 	defer target.Close()
+	defer staller.Close()
+	logic.RelayPushWriteAvTimeoutMs = 1000
 	conf := srv.Conf{RtmpGop: 1 + r.Intn(2), Flv: true, FlvGop: 1, Ts: true, TsGop: 1, Hls: true, HlsFragMs: 500, HlsFragNum: 3, HlsDelThr: 1, HlsCleanup: r.Intn(3),
-		Rtsp: true, WsRtsp: true, RecFlv: true, RecTs: true, Api: true, PushAddrs: []string{target.Addr}, MergeWrite: []int{0, 2048}[r.Intn(2)], DummyAudio: r.Intn(2) == 0,
+		Rtsp: true, WsRtsp: true, RecFlv: true, RecTs: true, Api: true, PushAddrs: []string{target.Addr, staller.Addr}, MergeWrite: []int{0, 2048}[r.Intn(2)], DummyAudio: r.Intn(2) == 0,
 		HlsHashKey: "k", GroupLogSec: 1}
 	s, err := srv.Start(conf, root)
 	if err != nil {
@@ -150,6 +159,7 @@ func c20Run(c *fw.Ctx, i int) {
 	names := []string{"a", "b", "c"}
 	c.Describe("GOMAXPROCS=%d duration=%v conf=%+v", procs, dur, conf)
 	c.Cell("stress/procs=%d", procs)
+	fatMsgs := gen.Build(c.SubRng("fat"), 9, gen.Shape{Name: "c20fat", Video: true, Audio: false, Gops: 40, GopLen: 8, Sizes: []int{32000}})
 	deadline := time.Now().Add(dur)
 	disposeAt := deadline.Add(-time.Duration(200+r.Intn(1500)) * time.Millisecond)
 	var disposed int32
@@ -192,6 +202,29 @@ func c20Run(c *fw.Ctx, i int) {
 			p.Close()
 		})
 	}
+	// a publisher with a real bit rate on a name of its own: enough bytes (≈10 MB per session) to fill
+	// the kernel buffers towards the push target that never reads, so that lal's write to it really blocks
+	// (built once, before the clock starts: generating ten megabytes of tagged payload under the race
+	// detector takes seconds, during which a connected publisher would be dropped as idle)
+	actor("rtmp-pub-fat", func(rr *rand.Rand) {
+		p, err := ref.StartRtmpPublisher(s.RtmpAddr(), "live", "fat", 2*time.Second)
+		if err != nil {
+			return
+		}
+		defer p.Close()
+		p.RC.SetChunkSize(60000)
+		st.inc("rtmp_publish_fat")
+		for _, m := range fatMsgs {
+			p.RC.Conn.SetWriteDeadline(time.Now().Add(8 * time.Second))
+			if e := p.RC.Send(ref.RtmpMsg{Csid: csidFor(m.Type), TypeID: m.Type, StreamID: p.Msid, Ts: m.Ts, Payload: m.Payload}, 0); e != nil || !alive() {
+				if e != nil {
+					st.inc("fat_sessions_cut_by_lal")
+				}
+				break
+			}
+			st.inc("fat_messages")
+		}
+	})
 	for k := 0; k < 2; k++ {
 		udp := k == 1
 		actor(fmt.Sprintf("rtsp-pub-%d", k), func(rr *rand.Rand) {
@@ -229,6 +262,12 @@ func c20Run(c *fw.Ctx, i int) {
 			n := 5 + rr.Intn(len(pk)-5)
 			for j, p := range pk[:n] {
 				if udp {
+					if j%5 == 4 {
+						// the same packet also on the other track's port: lal routes by payload type, so both of the
+						// session's UDP read goroutines work on one depacketiser
+						rc.SendUdpCross(p.track, p.pkt)
+						st.inc("rtp_on_the_other_tracks_port")
+					}
 					err = rc.SendUdp(p.track, false, p.pkt)
 				} else {
 					err = rc.SendInterleaved(p.track*2, p.pkt)
@@ -529,7 +568,17 @@ func c20Run(c *fw.Ctx, i int) {
 		s.Stop()
 		close(stopDone)
 	}()
-	wg.Wait()
+	// the actors' own network operations all carry deadlines of a few seconds; one that is still busy
+	// 45 s after the end of the run sits in a call into lal that does not return (in-process API such
+	// as AddCustomizePubSession / StatGroup, or an admission that never completes)
+	actorsDone := make(chan struct{})
+	go func() { wg.Wait(); close(actorsDone) }()
+	select {
+	case <-actorsDone:
+	case <-time.After(time.Until(deadline) + 45*time.Second):
+		c.Violate("deadlock/call-into-lal-does-not-return", "45 s after the end of the run an actor is still inside a call into lal (API call, admission or teardown that does not complete)\n"+goroutineSummary(), nil)
+		c.ExitNow()
+	}
 	select {
 	case <-stopDone:
 	case <-time.After(20 * time.Second):
@@ -637,7 +686,7 @@ func init() {
 		Batches:            func(string) int { return 16 },
 		CaseTimeout:        func(tier string) time.Duration { return 3 * time.Minute },
 		TimeoutIsViolation: true,
-		Rule: "worker built with -race (checkptr on); one lal server per process with every output enabled (HLS with sub-session hash key, periodic group debug log every second, FLV/TS recording, RTSP, WS-RTSP, relay push to a stub target that refuses every third connection, API); GOMAXPROCS ∈ {1,2,4,16}; liveness sweep every 2–4 s. For 12 s (thorough 40 s) concurrent actors churn on three stream names: 3 RTMP publishers, RTSP publishers over TCP and UDP (one in four sends SETUP requests naming no track of its SDP and goes away), a customize publisher, start_rtp_pub + PS over UDP/TCP (incl. a second TCP connection), 4 subscriber actors (RTMP, HTTP-FLV, WS-FLV, HTTP-TS, RTSP TCP/UDP, HLS playlist+segments, consumers that never read), 3 HLS pollers and a blacklist writer with 1 s entries (every /hls/ request consults and expires the ip blacklist), a relay pull on a name of its own that attaches and is then kicked or stopped, a notification handler that calls the stat API from inside OnHlsMakeTs, 4 API actors (stat group / all_group / lal_info, kick of listed pub/sub/pull ids, start/stop_relay_pull against an origin that refuses / closes / serves, add_ip_blacklist, web UI); Dispose at a seeded instant 0.2–1.7 s before the actors stop. Oracles: every `WARNING: DATA RACE` block in the child's log whose accesses touch lal or naza frames is a violation (signature = unordered pair of innermost lal/naza functions); `fatal error: concurrent map…`, `send on closed channel`, `all goroutines are asleep` are crashes; ≥3 consecutive API calls timing out (5 s each) while the server runs, Dispose not returning within 20 s, or a case exceeding its watchdog are deadlock violations with the goroutine dump; so is a goroutine that, after Dispose returned and all peers are gone, waits for a lal mutex in two dumps 2.5 s apart (a teardown that never completes). cell = GOMAXPROCS. In addition (quick 16, thorough 256 cases, each in a fresh child, GOMAXPROCS 4 or 16) the same race build runs seeded cases borrowed from the scenario lists of C03, C16, C17, C01, C15, C02, C14, C06 and C07 - precisely scheduled histories (relay pull overtaken by a publisher, kicks between handshake steps, consumers stalled past their queue, inputs ending at chosen frames, re-publishing) that random churn meets only by luck; from these only race reports and fatal errors are judged (their behavioural oracles belong to their own checks and are only counted: borrowed_oracle_alarms_not_judged). cell = borrowed/<property>.",
+		Rule: "worker built with -race (checkptr on); one lal server per process with every output enabled (HLS with sub-session hash key, periodic group debug log every second, FLV/TS recording, RTSP, WS-RTSP, relay push to a stub target that refuses every third connection and to one that completes the handshake and then never reads (push write timeout 1 s), API); GOMAXPROCS ∈ {1,2,4,16}; liveness sweep every 2–4 s. For 12 s (thorough 40 s) concurrent actors churn on three stream names: 3 RTMP publishers, one more with ≈10 MB per session on a name of its own (fills the buffers towards the push target that never reads), RTSP publishers over TCP and UDP (the UDP one sends every fifth packet also to the other track's port; one in four sends SETUP requests naming no track of its SDP and goes away), a customize publisher, start_rtp_pub + PS over UDP/TCP (incl. a second TCP connection), 4 subscriber actors (RTMP, HTTP-FLV, WS-FLV, HTTP-TS, RTSP TCP/UDP, HLS playlist+segments, consumers that never read), 3 HLS pollers and a blacklist writer with 1 s entries (every /hls/ request consults and expires the ip blacklist), a relay pull on a name of its own that attaches and is then kicked or stopped, a notification handler that calls the stat API from inside OnHlsMakeTs, 4 API actors (stat group / all_group / lal_info, kick of listed pub/sub/pull ids, start/stop_relay_pull against an origin that refuses / closes / serves, add_ip_blacklist, web UI); Dispose at a seeded instant 0.2–1.7 s before the actors stop. Oracles: every `WARNING: DATA RACE` block in the child's log whose accesses touch lal or naza frames is a violation (signature = unordered pair of innermost lal/naza functions); `fatal error: concurrent map…`, `send on closed channel`, `all goroutines are asleep` are crashes; ≥3 consecutive API calls timing out (5 s each) while the server runs, an actor still inside a call into lal 45 s after the end of the run, Dispose not returning within 20 s, or a case exceeding its watchdog are deadlock violations with the goroutine dump; so is a goroutine that, after Dispose returned and all peers are gone, waits for a lal mutex in two dumps 2.5 s apart (a teardown that never completes). cell = GOMAXPROCS. In addition (quick 16, thorough 256 cases, each in a fresh child, GOMAXPROCS 4 or 16) the same race build runs seeded cases borrowed from the scenario lists of C03, C16, C17, C01, C15, C02, C14, C06 and C07 - precisely scheduled histories (relay pull overtaken by a publisher, kicks between handshake steps, consumers stalled past their queue, inputs ending at chosen frames, re-publishing) that random churn meets only by luck; from these only race reports and fatal errors are judged (their behavioural oracles belong to their own checks and are only counted: borrowed_oracle_alarms_not_judged). cell = borrowed/<property>.",
 		Assumptions: []string{"GORACE=halt_on_error=0 exitcode=0 so that one report does not hide the rest", "a race between two harness-only frames is a harness fault, not a finding"},
 		MinCells: 2,
 		Run:      c20Run,
